@@ -536,6 +536,11 @@ static const seed_t seeds[] = {
     { "yaml-probe-dup-key", F_YAML, "yaml", "a: 1\na: [2]\na: ~\n",
 	SF_PROBE },
     { "yaml-probe-two-docs", F_YAML, "yaml", "a: 1\n---\nb: 2\n", SF_PROBE },
+    /* keys whose first character needs its backslash (digit, hyphen,
+       space), as the library's own export writes them */
+    { "yaml-probe-quoted-first-char", F_YAML, "yaml",
+	"'\\5GHz': 1\n'\\-3dB': x\n'\\ padded': y\n'\\2nd': {'\\7': z}\n",
+	SF_PROBE },
 };
 #define NSEEDS ((int)(sizeof(seeds) / sizeof(seeds[0])))
 
